@@ -69,16 +69,16 @@ theorem toString_natCast (n : Nat) : toString ((n : Nat) : Int) = toString n := 
 
 /-- `\thefigure` / `\thetable` of the standard classes, for every chapter and float number -/
 theorem float_number (thes : TheEnv) (s : Store) (ctr : Name) (k cn fn : Nat)
-    (hctr : ctr = "figure" ∨ ctr = "table")
+    (hctr : ctr = "figure" ∨ ctr = "table" ∨ ctr = "equation")
     (hl : thes.lookup ("the" ++ ctr) = some { pieces := [.ref "thechapter" none, .lit ".", .ref ctr none], trimLeft := true })
     (hc : thes.lookup "thechapter" = some { pieces := [.ref "chapter" none], trimLeft := false })
     (hcv : valD s "chapter" = (cn : Int)) (hfv : valD s ctr = (fn : Int)) :
     evalThe (k + 2) thes s ("the" ++ ctr) =
       .ok (if cn = 0 then toString fn else toString cn ++ "." ++ toString fn) := by
   have m1 : isMacroRef ("the" ++ ctr) "thechapter" = true := by
-    rcases hctr with rfl | rfl <;> decide +kernel
+    rcases hctr with rfl | rfl | rfl <;> decide +kernel
   have m2 : isMacroRef ("the" ++ ctr) ctr = false := by
-    rcases hctr with rfl | rfl <;> decide +kernel
+    rcases hctr with rfl | rfl | rfl <;> decide +kernel
   have m3 : isMacroRef "thechapter" "chapter" = false := by decide +kernel
   have e1 : evalThe (k + 1) thes s "thechapter" = .ok (toString cn) := by
     rw [PlasVerif.Proofs.Format.evalThe_succ, hc]
